@@ -20,6 +20,7 @@ import SfModel.SmallSession
 import SfModel.Avr
 import SfModel.Ircam
 import SfModel.Paf
+import SfModel.Svx
 import Driver.Util
 open Sf (hexBytes hexFixed parseHexBytes parseHexNat Byte)
 open Sf.Small
@@ -78,10 +79,18 @@ def paf : Container where
   parse := Sf.Paf.parse
   rate r := some r
 
+def svx : Container where
+  spec toks :=
+    let c : Sf.Svx.Cfg := { codec := codecOf toks, endian := kvNat toks "endian" 0, ch := kvNat toks "ch" 1, sr := kvNat toks "sr" 1, name := nameOf toks }
+    if decide c.wf then some (Sf.Svx.spec c) else none
+  parse := Sf.Svx.parse
+  rate := Sf.Svx.rateQ
+
 def containerOf (s : String) : Option Container :=
   if s == "avr" then some avr
   else if s == "ircam" then some ircam
   else if s == "paf" then some paf
+  else if s == "svx" then some svx
   else none
 
 def answer (ct : Container) (line : String) : String :=
